@@ -106,7 +106,11 @@ func suiteFuzzGenerate(env *Env, res *Result) {
 		if cl == "ok" && f.res.Stdout == "" {
 			cls = ""
 		}
-		cases = append(cases, CorrCase{Fields: []string{"generate", "-", "-", "-", "-", "-", "-", fs, hx(f.text)}, Impl: implClass(f.res), Human: strconv.Quote(f.text) + " inc=" + strconv.Quote(f.inc), Class: cls})
+		lenient := ""
+		if cyclicDefinitions(f.text + "\n" + f.inc) {
+			lenient = "cyclic-definitions"
+		}
+		cases = append(cases, CorrCase{Fields: []string{"generate", "-", "-", "-", "-", "-", "-", fs, hx(f.text)}, Impl: implClass(f.res), Human: strconv.Quote(f.text) + " inc=" + strconv.Quote(f.inc), Class: cls, Lenient: lenient})
 	}
 	outs := compareWithModelAlt(env, res, cases)
 	// C03: where the model says the result depends on a map iteration order, show it on the binary
